@@ -827,6 +827,23 @@ Definition run_C03_render_stockholm (body : list str) : val := VL [VB true; VS (
 Definition run_C03_render_gff (header body : str) : val := VL [VB true; VS (render_gff header body)].
 Definition run_C03_ext (w : N) (fname : str) : val :=
   VL [VB true; VOpt VS (detect_ext (v_what w) fname)].
+(* histories: the model is pure, so every step is the model applied to the content the handle holds at that moment *)
+Inductive hstep :=
+| HDetect (w : N) (sep : option byte) (outfmt : option str) (binary : bool) (pos : nat) (c : str)
+| HExt (w : N) (fname : str)
+| HOk.                                          (* relational step: the driver reports "ok" *)
+Definition run_hstep (s : hstep) : bool * val :=
+  match s with
+  | HDetect w sep outfmt binary pos c =>
+      let o := {| o_sep := sep; o_outfmt := outfmt |} in
+      let '(d, h) := detect_h (v_what w) o {| h_content := c; h_pos := pos; h_binary := binary |} in
+      (wf_C03 c pos, VL [v_dres d; VI (Z.of_nat (h_tell h))])
+  | HExt w fname => (true, VOpt VS (detect_ext (v_what w) fname))
+  | HOk => (true, VS (bs "ok"%bs))
+  end.
+Definition run_C03_hist (steps : list hstep) : val :=
+  let rs := map run_hstep steps in
+  VL [VB (forallb fst rs); VL (map snd rs)].
 Definition run_C03_ext_arg (w : N) (f : fname_arg) : val :=
   VL [VB true; VOpt VS (detect_ext_arg (v_what w) f)].
 (* glob_empty: the harness lets glob.glob return no file -> IOError (main.py:188-189) *)
